@@ -346,6 +346,21 @@ def run(ctx):
             ctx.sample({kk: (vv if not isinstance(vv, list) or len(vv) < 24 else vv[:24] + ['...']) for kk, vv in s.items()}, limit=10)
     rej = ctx.judge('Trace_C09', ev, chunk=60000)
     ctx.traces += len(ev) - len(rej)
+    bad = {i for i, _ in rej}
+    good = [e for i, e in enumerate(ev) if i not in bad][::97]
+
+    def flip_last(field, kind):
+        def f(e):
+            if e['k'] != kind or not e.get(field):
+                return None
+            e[field][-1] ^= 1
+            return e
+        return f
+    ctx.selftest(lambda b: ctx.judge('Trace_C09', b), good, [('newenc: last octet of the encoding', flip_last('out', 'newenc')), ('olddec: decoded value', flip_last('q', 'olddec')),
+                 ('subdec: consumed count', lambda e: dict(e, used=e['used'] + 1) if e['k'] == 'subdec' and e['used'] >= 0 else None),
+                 ('mpienc: encoding', flip_last('out', 'mpienc')), ('count: decoded count', lambda e: dict(e, n=e['n'] + 1) if e['k'] == 'count' else None),
+                 ('partial: total length', lambda e: dict(e, total=e['total'] + 1) if e['k'] == 'partial' else None),
+                 ('hdr: body length claimed', lambda e: dict(e, n=e['n'] + 1) if e['k'] == 'hdr' and e['out'] else None)], 'C09')
     ctx.extra['events_by_kind'] = {}
     for e in ev:
         ctx.extra['events_by_kind'][e['k']] = ctx.extra['events_by_kind'].get(e['k'], 0) + 1
